@@ -51,7 +51,7 @@ func limitRef(frames []rawFrame, limit int) limExpect {
 	e.At = -1
 	assembled := 0
 	var cur []byte
-	curOp, curComp, in := 0, false, false
+	curOp, curComp := 0, false
 	for i, f := range frames {
 		n := len(f.Payload)
 		if f.Declare != 0 {
@@ -71,7 +71,7 @@ func limitRef(frames []rawFrame, limit int) limExpect {
 			continue
 		}
 		if f.Op != 0 {
-			in, curOp, curComp, cur, assembled = true, f.Op, f.R1, nil, 0
+			curOp, curComp, cur, assembled = f.Op, f.R1, nil, 0
 		}
 		if limit > 0 && assembled+n > limit {
 			e.TooLarge, e.At, e.Why = true, i, fmt.Sprintf("%d bytes assembled + %d declared > limit %d", assembled, n, limit)
@@ -96,7 +96,7 @@ func limitRef(frames []rawFrame, limit int) limExpect {
 				body = out
 			}
 			e.Deliver = append(e.Deliver, msg{curOp, append([]byte{}, body...)})
-			in, cur, assembled = false, nil, 0
+			cur, assembled = nil, 0
 		}
 	}
 	return e
